@@ -21,10 +21,11 @@ import itertools
 import re
 from typing import Any, Dict, List, Optional, Tuple
 
+from engines import c01facts as cf
 from engines import pyfacts as pf
 from engines import sqlfront as sf
 from engines import sqlrules as sr
-from engines.common import AnalysisError, Ctx, norm
+from engines.common import AnalysisError, AnchorRemoved, Ctx, norm
 from engines.sqlast import N, text
 from engines.sqleval import ev
 
@@ -159,6 +160,95 @@ def r1_trigger(ctx: Ctx, prog: sf.SqlProgram) -> None:
     # R5 fan-out of the cancellable row over self and ancestors
     _check_fanout(ctx, 'R5', f'{r.file}::jobs_after_update::{CANC_TBL}', cst, cins, r.file, r.line_of(cst),
                   batch='new.batch_id', group='new.job_group_id', update='new.update_id', inst_coll='new.inst_coll')
+    r9_trigger_net_effect(ctx, r, gc_var, points, CORES)
+
+
+# ------------------------------------------------------------------------------------------------
+def r9_trigger_net_effect(ctx: Ctx, r: sf.Routine, gc_var: str, points: List[tuple], cores: int) -> None:
+    """R1 compares the delta EXPRESSIONS with the spec; this rule runs the whole trigger body (variables, IF/ELSE, LEAVE, SIGNAL)
+    on every domain point and compares what is actually APPLIED: an upsert wrapped in a "something changed" guard that forgets one
+    of the deltas it carries, an early exit, or an ELSE arm without the upsert all leave the expressions right and the counters wrong."""
+    a = r.ast
+    what = 'jobs_after_update'
+
+    def into_hook_for(gc: int):
+        def hook(st: N) -> Optional[List[Any]]:
+            if len(st.cols) == 1 and st.cols[0][0].kind == 'func' and st.cols[0][0].name == 'IS_JOB_GROUP_CANCELLED':
+                return [gc]
+            return None
+        return hook
+
+    tables = {USER_TBL: USER_COUNTERS, CANC_TBL: CANC_COUNTERS}
+    inserts = {t: _find_inserts(a.body, t) for t in tables}
+    guards = {id(st): g for st, g in sf.guarded_statements(a.body)}
+    sets = {}
+    for st in sf.all_statements(a.body):
+        if st.kind == 'set':
+            for t, v in st.assigns:
+                if sr.is_var(t):
+                    sets.setdefault(t.parts[0].lower(), []).append(v)
+    it = cf.Interp(lambda name: cf.UNKNOWN, lambda st: None, set(tables), what)
+    first_bad: Dict[Tuple[str, str], Tuple[tuple, Any, int, cf.Run]] = {}
+    undecided: Dict[Tuple[str, str], tuple] = {}
+    n_runs = 0
+    for pt in points:
+        (os_, ns, oc, nc, ar, gc) = pt
+        vals = {'old.state': os_, 'new.state': ns, 'old.cancelled': oc, 'new.cancelled': nc, 'old.always_run': ar, 'new.always_run': ar,
+                'old.cores_mcpu': cores, 'new.cores_mcpu': cores}
+        it.atoms = lambda name, vals=vals: vals.get(name, cf.UNKNOWN)
+        it.into_hook = into_hook_for(gc)
+        runs = [x for x in it.run(a.body) if not x.aborted]
+        n_runs += len(runs)
+        if not runs:
+            continue  # the trigger rejects this transition: the UPDATE fails as a whole and nothing changes
+        for tbl, cols in tables.items():
+            for col in cols:
+                if (tbl, col) in first_bad:
+                    continue
+                want = _spec(col, ns, int(nc or gc), ar, cores) - _spec(col, os_, int(oc or gc), ar, cores)
+                nets = [x.net(tbl, col) for x in runs]
+                if all(v is not cf.UNKNOWN and v == want for v in nets):
+                    continue
+                if all(v is not cf.UNKNOWN and v != want for v in nets):
+                    first_bad[(tbl, col)] = (pt, nets[0], want, runs[0])
+                else:
+                    undecided.setdefault((tbl, col), pt)
+    ctx.unit('trigger_body_executions', n_runs)
+
+    def explain(run: cf.Run, tbl: str) -> str:
+        skipped = [st for st in inserts[tbl] if not run.executed(st)]
+        if not skipped:
+            return f'the executed INSERT into {tbl} carries a different amount'
+        parts = []
+        for st in skipped:
+            g = guards.get(id(st), ())
+            if not g:
+                parts.append('an earlier LEAVE skips the upsert')
+                continue
+            dec = {id(c): o for c, o, _ in run.decisions}
+            failing = [(c, pol) for c, pol in g if id(c) in dec and dec[id(c)] != pol]
+            c, pol = failing[0] if failing else g[-1]
+            t = ('' if pol else 'NOT ') + text(c)
+            if sr.is_var(c) and len(sets.get(c.parts[0].lower(), [])) == 1:
+                t += f' [= {text(sets[c.parts[0].lower()][0])}]'
+            parts.append(f'the upsert into {tbl} is skipped because its enclosing condition `{t}` is false there')
+        return '; '.join(parts)
+
+    for tbl, cols in tables.items():
+        for col in cols:
+            cons = f'sql::jobs_after_update::{tbl}.{col}::applied on every path'
+            if (tbl, col) in first_bad:
+                (os_, ns, oc, nc, ar, gc), got, want, run = first_bad[(tbl, col)]
+                st0 = inserts[tbl][0] if inserts[tbl] else None
+                ctx.bad('R9', cons, f'UPDATE jobs {os_}->{ns} (cancelled {oc}->{nc}, always_run={ar}, group_cancelled={gc}): recomputation from the job\'s state changes '
+                        f'{col} by {want}, the trigger body as a whole applies {got}: {explain(run, tbl)}. The counter keeps the stale amount for ever '
+                        '(guards around counter maintenance must be true whenever ANY of the deltas the statement carries is non-zero)', r.file,
+                        r.line_of(st0) if st0 is not None else r.line)
+            elif (tbl, col) not in undecided:
+                ctx.ok('R9', cons, {'points': len(points)})
+    if undecided and not first_bad:
+        (tbl, col), pt = sorted(undecided.items())[0]
+        raise AnalysisError(f'jobs_after_update: whether {tbl}.{col} is maintained at {pt} depends on a condition outside the analysed domain')
 
 
 def _check_fanout(ctx: Ctx, rule: str, cons: str, st: N, ins: Dict[str, N], file: str, line: int, batch: str, group: str, update: Optional[str], inst_coll: Optional[str]) -> None:
@@ -561,6 +651,59 @@ def r5_create_jobs(ctx: Ctx) -> None:
         d = pf.single_def(e.fn, args_node.id) if isinstance(args_node, ast.Name) else args_node
         okc = isinstance(d, ast.ListComp) and pf.nsrc(d.generators[0].iter) == 'inst_coll_resources.items()' and pf.nsrc(d.generators[0].target) == '((icr_job_group_id, inst_coll), resources)'
         ctx.check(okc, 'R5', cons2 + '::source', 'insert arguments are not generated from inst_coll_resources.items() as ((job_group_id, inst_coll), resources)', m.path, e.lineno)
+        if okc:
+            _check_row_filter(ctx, m, e, d, counters, cons2)
+
+
+def _ready_only_first_update() -> bool:
+    """Premise: _create_jobs inserts a job Ready (and stages n_ready_jobs) only under a conjunct `update_id == 1`."""
+    try:
+        fn = pf.load('batch/batch/front_end/front_end.py').func('_create_jobs')
+    except AnalysisError:
+        return False
+    ifs = [n for n in pf.walk_shallow(fn) if isinstance(n, ast.If) and any(isinstance(s, ast.Assign) and pf.nsrc(s.targets[0]) == 'state'
+                                                                          and pf.const_str(s.value) == 'Ready' for s in n.body)]
+    if len(ifs) != 1:
+        return False
+    test = ifs[0].test
+    conj = test.values if isinstance(test, ast.BoolOp) and isinstance(test.op, ast.And) else [test]
+    return any(pf.nsrc(c) in ('update_id == 1', '1 == update_id') for c in conj)
+
+
+# a non-zero value of the key implies a non-zero value of the mapped column (per (job group, inst_coll) tally of one bunch)
+TALLY_DOMINATED_BY = {'ready_cores_mcpu': 'n_ready_jobs', 'n_ready_jobs': 'n_jobs', 'ready_cancellable_cores_mcpu': 'n_ready_cancellable_jobs',
+                      'n_ready_cancellable_jobs': 'n_ready_jobs'}
+
+
+def _check_row_filter(ctx: Ctx, m: pf.Module, e: Any, comp: ast.ListComp, counters: List[str], cons2: str) -> None:
+    """Rows may only be left out of the staged insert when every amount they carry is zero."""
+    def tested(t: ast.expr) -> Optional[set]:
+        if isinstance(t, ast.BoolOp) and isinstance(t.op, ast.Or):
+            parts = [tested(v) for v in t.values]
+            return None if any(p is None for p in parts) else set().union(*parts)
+        if isinstance(t, ast.Compare) and len(t.ops) == 1 and isinstance(t.ops[0], (ast.Gt, ast.NotEq)) and isinstance(t.comparators[0], ast.Constant) and t.comparators[0].value == 0:
+            t = t.left
+        if isinstance(t, ast.Subscript) and pf.nsrc(t.value) == 'resources' and pf.const_str(t.slice) is not None:
+            return {pf.const_str(t.slice)}
+        return None
+
+    filters = list(comp.generators[0].ifs)
+    ctx.need(len(comp.generators) == 1, f'_create_jobs: nested comprehension for {cons2}')
+    for (node, in_body) in sr.enclosing_ifs(m, e.call, stop=e.fn):
+        ok_outer = in_body and isinstance(e.call.args[1], ast.Name) and pf.nsrc(node.test) == e.call.args[1].id
+        ctx.need(ok_outer, f'_create_jobs: the counter insert is conditional on `{pf.nsrc(node.test)}`: not a recognised "nothing to insert" test')
+    for f in filters:
+        T = tested(f)
+        ctx.need(T is not None, f'_create_jobs: row filter `{pf.nsrc(f)}` on the counter insert is not a test of resources[...] amounts')
+        assert T is not None
+        for col in counters:
+            chain = {col}
+            cur = col
+            while cur in TALLY_DOMINATED_BY:
+                cur = TALLY_DOMINATED_BY[cur]
+                chain.add(cur)
+            ctx.check(bool(chain & T), 'R9', f'{cons2}.{col}::row filter', f'rows are only inserted when `{pf.nsrc(f)}`, but they also carry {col}, which can be non-zero while everything the filter tests is zero '
+                      f'(e.g. a bunch whose jobs in this group are all Pending has n_jobs > 0 and n_ready_jobs = 0): that amount never reaches the staged counters', m.path, e.lineno)
 
 
 # ------------------------------------------------------------------------------------------------
@@ -723,6 +866,592 @@ def r8_immutable(ctx: Ctx, prog: sf.SqlProgram) -> None:
     ctx.need(n >= 8, f'only {n} UPDATE statements on jobs found')
 
 
+# ------------------------------------------------------------------------------------------------
+# R10 / R11: the staged roll-up of commit_batch_update is only right if no staged Ready job sits under a cancelled group at commit
+# ------------------------------------------------------------------------------------------------
+MARK_TBL = 'job_groups_cancelled'
+MARK_WRITERS = {'cancel_job_group', 'cancel_batch'}
+A2_HISTORY = ('history: create update 1 with a nested job group G and parentless (Ready) jobs in G; cancel G before the commit: cancel_job_group inserts the mark but moves only '
+              'committed updates\' counts; commit update 1: commit_batch_update adds the staged n_ready_jobs / ready_cores_mcpu unconditionally -> the jobs of G are counted in '
+              'n_ready_jobs although the recomputation puts them in n_cancelled_ready_jobs')
+
+
+def _is_root_expr(m: pf.Module, x: Optional[ast.AST]) -> bool:
+    if isinstance(x, ast.Constant) and x.value == 0 and not isinstance(x.value, bool):
+        return True
+    return isinstance(x, ast.Name) and m.imports().get(x.id, '').endswith('.ROOT_JOB_GROUP_ID')
+
+
+def _bind(e: sf.Embedded, st: N) -> Optional[Dict[int, ast.AST]]:
+    params = sr.params_in_order(st)
+    if not params:
+        return {}
+    elts = sr.args_tuple(e.fn, e.call.args[1]) if len(e.call.args) > 1 else None
+    if elts is None or len(elts) != len(params):
+        return None
+    return {id(p): x for p, x in zip(params, elts)}
+
+
+def _src(x: Optional[ast.AST]) -> Optional[str]:
+    return pf.nsrc(x) if x is not None else None
+
+
+def _assigned_name(m: pf.Module, call: ast.Call) -> Optional[str]:
+    """`rec = [await] <call>`  ->  'rec'."""
+    par = m.parents()
+    p = par.get(call)
+    if isinstance(p, ast.Await):
+        p = par.get(p)
+    if isinstance(p, ast.Assign) and len(p.targets) == 1 and isinstance(p.targets[0], ast.Name):
+        return p.targets[0].id
+    if isinstance(p, ast.AnnAssign) and isinstance(p.target, ast.Name):
+        return p.target.id
+    return None
+
+
+def _alias_map(sel: N) -> Dict[str, str]:
+    return {(t.alias or t.name).lower(): t.name.lower() for t in sf.from_tables(sel.frm) if t.kind == 'table'}
+
+
+def _all_conjuncts(sel: N) -> List[N]:
+    out = list(sf.conjuncts(sel.where))
+
+    def rec(ref: N) -> None:
+        if ref.kind == 'from':
+            rec(ref.first)
+            for j in ref.joins:
+                out.extend(sf.conjuncts(j.on))
+                rec(j.ref)
+    if sel.frm is not None:
+        rec(sel.frm)
+    return out
+
+
+def _col_of(e: N, alias: Dict[str, str], table: str, col: str, sole: bool) -> bool:
+    """Is e the column `col` of `table` (qualified by an alias of it, or unqualified when only that table has it)?"""
+    if e.kind != 'col' or e.parts[-1].lower() != col:
+        return False
+    if len(e.parts) > 1:
+        return alias.get(e.parts[-2].lower()) == table
+    return sole
+
+
+def _committed_or_root(m: pf.Module, sel: N, bind: Dict[int, ast.AST]) -> bool:
+    """Does the WHERE of a row-existence query over job_groups imply  "the group's creating update is committed OR the group is the root"?"""
+    alias = _alias_map(sel)
+    conj = _all_conjuncts(sel)
+    eqs = set()
+    for c in conj:
+        if c.kind == 'bin' and c.op == '=' and c.left.kind == 'col' and c.right.kind == 'col':
+            def tc(x: N) -> Tuple[str, str]:
+                return (alias.get(x.parts[-2].lower(), '?') if len(x.parts) > 1 else '?', x.parts[-1].lower())
+            eqs.add(frozenset((tc(c.left), tc(c.right))))
+    joined = frozenset((('job_groups', 'batch_id'), ('batch_updates', 'batch_id'))) in eqs and frozenset((('job_groups', 'update_id'), ('batch_updates', 'update_id'))) in eqs
+
+    def committed_lit(d: N) -> bool:
+        if d.kind == 'bin' and d.op == '=' and d.right.kind == 'lit' and d.right.value in (1, True):
+            d = d.left
+        return _col_of(d, alias, 'batch_updates', 'committed', sole=True) and 'batch_updates' in alias.values() and joined
+
+    def root_lit(d: N) -> bool:
+        if not (d.kind == 'bin' and d.op == '='):
+            return False
+        for a, b in ((d.left, d.right), (d.right, d.left)):
+            if _col_of(a, alias, 'job_groups', 'job_group_id', sole=list(alias.values()).count('job_groups') == 1 and 'job_group_self_and_ancestors' not in alias.values()):
+                if b.kind == 'lit' and b.value == 0:
+                    return True
+                if b.kind == 'param' and _is_root_expr(m, bind.get(id(b))):
+                    return True
+        return False
+
+    for c in sf.conjuncts(sel.where):
+        ds = sf.disjuncts(c)
+        if ds and all(committed_lit(d) or root_lit(d) for d in ds):
+            return True
+    return False
+
+
+def _keyed_on(sel: N, bind: Dict[int, ast.AST], table: str, want: Dict[str, Optional[str]]) -> bool:
+    """WHERE has `table.col = %s` with %s bound to the python expression `want[col]` for every col."""
+    alias = _alias_map(sel)
+    got: Dict[str, Optional[str]] = {}
+    for c in sf.conjuncts(sel.where):
+        if c.kind == 'bin' and c.op == '=':
+            for a, b in ((c.left, c.right), (c.right, c.left)):
+                if a.kind == 'col' and b.kind == 'param' and (alias.get(a.parts[-2].lower()) == table if len(a.parts) > 1 else True):
+                    got.setdefault(a.parts[-1].lower(), _src(bind.get(id(b))))
+    return all(got.get(k) == v and v is not None for k, v in want.items())
+
+
+def r10_cancel_sites(ctx: Ctx, prog: sf.SqlProgram, dirs: List[str]) -> None:
+    """No group of an update that is not committed may carry a cancellation mark (the root group excepted: R11 refuses the commit then)."""
+    # (a) SQL: who inserts the mark, and for which group
+    sql_callers = []
+    for name, r in sorted(prog.routines.items()):
+        for st in sf.all_statements(r.ast.body):
+            if any(t.lower() == MARK_TBL for t, _ in sf.written_tables(st)):
+                cons = f'sql::{name}::{st.kind} {MARK_TBL}'
+                if name not in MARK_WRITERS:
+                    ctx.bad('R10', cons, f'{name} writes {MARK_TBL} but is not one of the cancel procedures {sorted(MARK_WRITERS)}: a cancellation mark appears without the counters being moved '
+                            'from n_*_jobs to n_cancelled_*_jobs', r.file, r.line_of(st))
+                    continue
+                ok = st.kind == 'insert' and st.select is None and st.cols is not None and len(st.rows) == 1
+                vals = {c.lower(): text(v).lower() for c, v in zip(st.cols, st.rows[0])} if ok else {}
+                want = {'id': 'in_batch_id', 'job_group_id': 'in_job_group_id' if name == 'cancel_job_group' else '0'}
+                ctx.check(ok and vals == want, 'R10', cons, f'the mark is written for {vals}, not for the group whose counters the procedure moved ({want})', r.file, r.line_of(st))
+            if st.kind == 'call' and st.name.lower() in MARK_WRITERS:
+                sql_callers.append((name, r, st))
+    for name, r, st in sql_callers:
+        g = text(st.args[1]).lower() if len(st.args) > 1 else '0'
+        ctx.need(g == '0' or st.name.lower() == 'cancel_batch', f'{name} calls {st.name} for a non-root group from SQL: who guarantees that its update is committed is not analysed')
+    # (b) Python call sites
+    n_sites = 0
+    for rel in pf.walk_py(dirs):
+        m = pf.load(rel)
+        if 'cancel_job_group' not in m.src and 'cancel_batch' not in m.src and MARK_TBL not in m.src:
+            continue
+        for e in sf.embedded_in(m):
+            if e.sql_text is None or not any(k in e.sql_text for k in ('cancel_job_group', 'cancel_batch', MARK_TBL)):
+                continue
+            sts = e.stmts()
+            ctx.need(not e.parse_error, f'{rel}:{e.lineno}: SQL naming the cancel procedures does not parse ({e.parse_error})')
+            for st in sts:
+                if any(t.lower() == MARK_TBL for t, _ in sf.written_tables(st)):
+                    ctx.bad('R10', f'{rel}::{e.qual}::{st.kind} {MARK_TBL}', f'{e.qual} writes {MARK_TBL} directly: the mark appears without the cancel procedure moving the counters', m.path, e.lineno)
+                if st.kind != 'call' or st.name.lower() != 'cancel_job_group':
+                    continue
+                n_sites += 1
+                _cancel_site(ctx, m, e, st)
+    ctx.need(n_sites >= 2, f'only {n_sites} Python call sites of cancel_job_group found')
+
+
+def _cancel_site(ctx: Ctx, m: pf.Module, e: sf.Embedded, st: N) -> None:
+    cons = f'{m.rel}::{e.qual}::CALL cancel_job_group::group committed or root'
+    ctx.need(len(st.args) == 2, f'{m.rel}:{e.lineno}: CALL cancel_job_group with {len(st.args)} arguments')
+    bind = _bind(e, st)
+    ctx.need(bind is not None, f'{m.rel}:{e.lineno}: cannot bind the arguments of CALL cancel_job_group')
+    assert bind is not None
+    b_arg, g_arg = st.args
+    if (g_arg.kind == 'lit' and g_arg.value == 0) or (g_arg.kind == 'param' and _is_root_expr(m, bind.get(id(g_arg)))):
+        ctx.ok('R10', cons, {'group': 'root'})
+        return
+    ctx.need(b_arg.kind == 'param' and g_arg.kind == 'param' and e.fn is not None, f'{m.rel}:{e.lineno}: CALL cancel_job_group argument shape not recognised')
+    b_src, g_src = _src(bind.get(id(b_arg))), _src(bind.get(id(g_arg)))
+    g = pf.cfg(e.fn)
+    target = g.node_of(e.call)
+    ctx.need(len(target) == 1, f'{m.rel}:{e.lineno}: CALL cancel_job_group not found in the control-flow graph')
+    keyed = []
+    for e2 in sf.embedded_in(m):
+        if e2.fn is not e.fn or e2 is e or e2.sql_text is None or 'job_groups' not in e2.sql_text:
+            continue
+        sts2 = e2.stmts()
+        if e2.parse_error or len(sts2) != 1 or sts2[0].kind != 'select' or sts2[0].frm is None or 'job_groups' not in [t.lower() for t in sf.table_names(sts2[0].frm)]:
+            continue
+        sel = sts2[0]
+        bind2 = _bind(e2, sel)
+        if bind2 is None or not _keyed_on(sel, bind2, 'job_groups', {'batch_id': b_src, 'job_group_id': g_src}):
+            continue
+        keyed.append((e2, sel, bind2))
+    ctx.need(keyed, f'{m.rel}::{e.qual}: no row-existence query over job_groups keyed by the CALL\'s own ({b_src}, {g_src}) in this function: who establishes "committed or root" is not analysed')
+    ok = False
+    why = 'its WHERE does not require `batch_updates.committed` (joined on the group\'s own batch_id, update_id) or the root group'
+    for e2, sel, bind2 in keyed:
+        if not _committed_or_root(m, sel, bind2):
+            continue
+        rec = _assigned_name(m, e2.call)
+        assign = g.node_of(e2.call)
+        if rec is None or len(assign) != 1 or not e2.method.endswith('fetchone'):
+            why = 'its result is not bound to a variable that is tested'
+            continue
+        if cf.guard_dominates(g, cf.record_tests(g, rec), assign[0], target[0]):
+            ok = True
+        else:
+            why = f'the CALL is reachable without the "row found" outcome of `{rec}`'
+    ctx.check(ok, 'R10', cons, f'cancel_job_group({b_src}, {g_src}) can be called for a non-root job group whose creating update is not committed: the guard query before it exists but {why}. '
+              + A2_HISTORY, m.path, e.lineno)
+
+
+def r11_commit_sites(ctx: Ctx, dirs: List[str]) -> None:
+    """commit_batch_update is only called after refusing a batch whose root group is cancelled (then every staged Ready job is cancelled and the roll-up would count it as ready)."""
+    n = 0
+    for rel in pf.walk_py(dirs):
+        m = pf.load(rel)
+        if 'commit_batch_update' not in m.src:
+            continue
+        for e in sf.embedded_in(m):
+            if e.sql_text is None or 'commit_batch_update' not in e.sql_text:
+                continue
+            sts = e.stmts()
+            ctx.need(not e.parse_error and len(sts) == 1 and sts[0].kind == 'call' and sts[0].name.lower() == 'commit_batch_update' and e.fn is not None,
+                     f'{rel}:{e.lineno}: statement naming commit_batch_update not recognised')
+            bind = _bind(e, sts[0])
+            ctx.need(bind is not None and sts[0].args and sts[0].args[0].kind == 'param', f'{rel}:{e.lineno}: cannot bind the arguments of CALL commit_batch_update')
+            assert bind is not None
+            b = bind[id(sts[0].args[0])]
+            fn = e.fn
+            params = [a.arg for a in fn.args.args]
+            ctx.need(isinstance(b, ast.Name) and b.id in params and m.qualname(fn) == fn.name, f'{rel}::{e.qual}: batch argument of commit_batch_update is not a parameter of a module-level function')
+            idx = params.index(b.id)
+            # callers of fn in this module; any other reference to fn is not analysable
+            sites = []
+            for node in ast.walk(m.tree):
+                if isinstance(node, ast.Name) and node.id == fn.name and isinstance(node.ctx, ast.Load):
+                    p = m.parents().get(node)
+                    ctx.need(isinstance(p, ast.Call) and p.func is node, f'{rel}: {fn.name} is referenced other than by a direct call (line {node.lineno})')
+                    sites.append(p)
+            ctx.need(sites, f'{rel}: no caller of {fn.name} found')
+            if ctx.tier != 'quick':
+                for rel2 in pf.walk_py(dirs):
+                    if rel2 != rel:
+                        m2 = pf.load(rel2)
+                        ctx.need(not any(v.endswith('.' + fn.name) for v in m2.imports().values()), f'{rel2} imports {fn.name}: callers outside {rel} are not analysed')
+            for call in sites:
+                n += 1
+                _commit_site(ctx, m, call, idx, fn.name)
+    ctx.need(n >= 4, f'only {n} call sites of the commit wrapper found')
+
+
+def _refusal_in_creator(ctx: Ctx, m: pf.Module, creator: str) -> bool:
+    """Does `creator` refuse (raise) for a cancelled root group before it inserts a new batch_updates row?"""
+    ctx.need(m.has_func(creator), f'{creator} not found')
+    outer = m.func(creator)
+    for e in sf.embedded_in(m):
+        if e.fn is None or not (e.fn is outer or m.qualname(e.fn).startswith(creator + '.')) or e.sql_text is None or 'batch_updates' not in e.sql_text:
+            continue
+        for st in e.stmts():
+            if st.kind == 'insert' and st.table.lower() == 'batch_updates':
+                g = pf.cfg(e.fn)
+                tgt = g.node_of(e.call)
+                if len(tgt) != 1:
+                    return False
+                return any(_root_cancel_refusal(m, e.fn, e2, tgt[0], None) == 'ok' for e2 in sf.embedded_in(m) if e2.fn is e.fn and e2 is not e)
+    return False
+
+
+def _root_cancel_refusal(m: pf.Module, fn: pf.FuncDef, e2: sf.Embedded, target: pf.Node, batch_src: Optional[str]) -> str:
+    """Classify a query of `fn` w.r.t. `target`:  'ok' = it reads the root group's cancellation mark into a column `cancelled` and `target` is only
+    reachable through the not-cancelled outcome; 'untested' = reads it but the outcome does not guard target; 'blind' = a batch/job-group
+    existence query that does not look at the mark; '' = unrelated."""
+    if e2.sql_text is None or e2.parse_error:
+        return ''
+    sts = e2.stmts()
+    if len(sts) != 1 or sts[0].kind != 'select' or sts[0].frm is None:
+        return ''
+    sel = sts[0]
+    tabs = [t.lower() for t in sf.table_names(sel.frm)]
+    if not tabs or tabs[0] not in ('batches', 'job_groups'):
+        return ''
+    bind = _bind(e2, sel)
+    if bind is None:
+        return ''
+    if batch_src is not None:
+        srcs = {_src(x) for x in bind.values()}
+        if batch_src not in srcs:
+            return ''
+    # the mark lookup: a derived table that is the root lookup / the ancestor walk, surfaced as `<alias>.cancelled IS NOT NULL AS cancelled`
+    lookups = {}
+    for t in sf.from_tables(sel.frm):
+        if t.kind != 'derived':
+            continue
+        rl = sr.root_lookup(t.select)
+        if rl is not None:
+            gnode = rl['group']
+            if (gnode.kind == 'lit' and gnode.value == 0) or (gnode.kind == 'param' and _is_root_expr(m, bind.get(id(gnode)))):
+                lookups[t.alias.lower()] = t
+        elif sr.ancestor_walk(t.select) is not None and tabs[0] == 'job_groups':
+            # walk from the job_groups row the outer query selects: must be the root row
+            if any(c.kind == 'bin' and c.op == '=' and c.left.kind == 'col' and c.left.parts[-1].lower() == 'job_group_id' and c.right.kind == 'param'
+                   and _is_root_expr(m, bind.get(id(c.right))) for c in sf.conjuncts(sel.where)):
+                lookups[t.alias.lower()] = t
+    flag = None
+    for c, al in sel.cols:
+        if al and c.kind == 'isnull' and c.negated and c.arg.kind == 'col' and len(c.arg.parts) == 2 and c.arg.parts[0].lower() in lookups:
+            flag = al
+    if flag is None:
+        return 'blind'
+    rec = _assigned_name(m, e2.call)
+    g = pf.cfg(fn)
+    assign = g.node_of(e2.call)
+    if rec is None or len(assign) != 1:
+        return 'untested'
+    tests = [(t, 'F') for t in g.find(lambda t: t.kind == 'test') if pf.nsrc(t.ast) in (f"{rec}['{flag}']", f'{rec}["{flag}"]', f"{rec}.get('{flag}')")]
+    tests += [(t, 'T') for t in g.find(lambda t: t.kind == 'test') if pf.nsrc(t.ast) in (f"not {rec}['{flag}']",)]
+    return 'ok' if cf.guard_dominates(g, tests, assign[0], target) else 'untested'
+
+
+_creator_ok: Dict[str, bool] = {}
+
+
+def _commit_site(ctx: Ctx, m: pf.Module, call: ast.Call, idx: int, wrapper: str) -> None:
+    fn = m.enclosing_func(call)
+    ctx.need(fn is not None and len(call.args) > idx, f'{m.rel}:{call.lineno}: call of {wrapper} not recognised')
+    assert fn is not None
+    b_src = pf.nsrc(call.args[idx])
+    cons = f'{m.rel}::{m.qualname(fn)}::{wrapper}({b_src}, ..)::cancelled batch refused'
+    g = pf.cfg(fn)
+    target = g.node_of(call)
+    ctx.need(len(target) == 1, f'{m.rel}:{call.lineno}: call of {wrapper} not found in the control-flow graph')
+    # (i) the update was created in this very request by a creator that refuses cancelled batches
+    for c in pf.calls_in(fn):
+        name = pf.call_name(c)
+        if name and name == '_create_batch_update' and c.args and pf.nsrc(c.args[0]) == b_src:
+            cn = g.node_of(c)
+            if len(cn) == 1 and g.path_avoiding(g.entry, lambda n: n is target[0], lambda n: n is cn[0]) is None:
+                if name not in _creator_ok:
+                    _creator_ok[name] = _refusal_in_creator(ctx, m, name)
+                ctx.check(_creator_ok[name], 'R11', cons, f'{name} no longer refuses to open an update on a batch whose root group is cancelled; the update it opens is committed right here: '
+                          'the staged Ready jobs of a cancelled batch are added to n_ready_jobs', m.path, call.lineno)
+                return
+    # (ii) an explicit look at the root group's mark in the caller
+    verdicts = [(e2, _root_cancel_refusal(m, fn, e2, target[0], b_src)) for e2 in sf.embedded_in(m) if e2.fn is fn]
+    kinds = [v for _, v in verdicts if v]
+    ctx.need(kinds, f'{m.rel}::{m.qualname(fn)}: no batch / job-group query keyed by {b_src} before {wrapper}: who refuses a cancelled batch is not analysed')
+    ok = 'ok' in kinds
+    if 'untested' in kinds:
+        why = 'the query reads the root group\'s cancellation mark but the commit is reachable whatever it returned'
+    else:
+        why = 'the existence query before the commit does not look at job_groups_cancelled for the root group'
+    ctx.check(ok, 'R11', cons, f'an update of a batch whose root group is already cancelled can be committed: {why}. history: open update 1 with parentless (Ready) jobs, cancel the batch '
+              '(cancel_job_group moves nothing, the update is not committed), commit: commit_batch_update adds the staged n_ready_jobs / ready_cores_mcpu to user_inst_coll_resources '
+              'although every one of those jobs is cancelled (recomputation: n_cancelled_ready_jobs)', m.path, call.lineno)
+
+
+# ------------------------------------------------------------------------------------------------
+# R12: what the scheduler / autoscaler / canceller READ is the sum over all token shards
+# ------------------------------------------------------------------------------------------------
+SHARDED = {USER_TBL: set(USER_COUNTERS), CANC_TBL: set(CANC_COUNTERS)}
+
+
+def _reader_problems(sel: N) -> Tuple[List[str], int]:
+    """Problems of one SELECT that reads counter columns of a sharded table directly, and the number of counter reads seen."""
+    tabs = [t for t in sf.from_tables(sel.frm) if t.kind == 'table']
+    mine = {(t.alias or t.name).lower(): t.name.lower() for t in tabs if t.name.lower() in SHARDED}
+    if not mine:
+        return [], 0
+    only = len(tabs) == 1
+    counters = set().union(*(SHARDED[t] for t in mine.values()))
+    aliases = {al.lower() for _, al in sel.cols if al}
+    probs: List[str] = []
+    reads = [0]
+
+    def is_counter(n: N) -> bool:
+        if n.kind != 'col' or n.parts[-1].lower() not in counters:
+            return False
+        if len(n.parts) > 1:
+            return n.parts[-2].lower() in mine
+        return only or n.parts[-1].lower() not in STAGE_COUNTERS  # unqualified and ambiguous with the staging table: not ours to judge
+
+    def is_token(n: N) -> bool:
+        return n.kind == 'col' and n.parts[-1].lower() == 'token' and (n.parts[-2].lower() in mine if len(n.parts) > 1 else True)
+
+    def visit(x: Any, in_sum: bool, where: str) -> None:
+        if isinstance(x, (list, tuple)):
+            for y in x:
+                visit(y, in_sum, where)
+            return
+        if not isinstance(x, N):
+            return
+        if x.kind in ('select', 'subq', 'exists', 'derived'):
+            return  # nested query blocks are judged on their own
+        if x.kind == 'func' and x.name in ('SUM',):
+            for y in x.args:
+                visit(y, True, where)
+            return
+        if is_counter(x):
+            reads[0] += 1
+            if not in_sum:
+                probs.append(f'{text(x)} is read per shard row in the {where} (not inside SUM)')
+        if is_token(x) and where != 'select list':
+            probs.append(f'the {where} restricts / splits by the shard column `{text(x)}`')
+        for v in x.fields().values():
+            visit(v, in_sum, where)
+
+    for c, _al in sel.cols:
+        visit(c, False, 'select list')
+        if is_token(c):
+            probs.append('the shard column `token` is selected')
+    visit(sel.where, False, 'WHERE clause')
+    for j in (sel.frm.joins if sel.frm is not None and sel.frm.kind == 'from' else []):
+        visit(j.on, False, 'join condition')
+    for gexpr in (sel.group or []):
+        if is_token(gexpr):
+            probs.append('GROUP BY includes the shard column `token`')
+    hv = getattr(sel, 'having', None)
+    if hv is not None:
+        for n in hv.walk():
+            if n.kind == 'col' and len(n.parts) == 1 and n.parts[0].lower() in aliases:
+                continue  # HAVING resolves select aliases first
+            if is_counter(n) and not _inside_sum(hv, n):
+                probs.append(f'HAVING tests {text(n)} of a single shard row')
+    return probs, reads[0]
+
+
+def _inside_sum(root: N, target: N) -> bool:
+    def rec(x: Any, in_sum: bool) -> Optional[bool]:
+        if x is target:
+            return in_sum
+        if isinstance(x, (list, tuple)):
+            for y in x:
+                r = rec(y, in_sum)
+                if r is not None:
+                    return r
+            return None
+        if not isinstance(x, N):
+            return None
+        inner = in_sum or (x.kind == 'func' and x.name == 'SUM')
+        for v in x.fields().values():
+            r = rec(v, inner)
+            if r is not None:
+                return r
+        return None
+    return bool(rec(root, False))
+
+
+def r12_readers(ctx: Ctx, prog: sf.SqlProgram, dirs: List[str]) -> None:
+    msg = ('the counters are sharded over `token` rows (the trigger adds to a random shard, the cancel procedures subtract from shard 0, so single shards are arbitrary, even negative): '
+           'only SUM over all shards equals the recomputation from job states')
+    n = 0
+
+    def judge(cons: str, st: N, file: str, line: int) -> None:
+        nonlocal n
+        for sel in [x for x in st.walk() if x.kind == 'select' and x.frm is not None]:
+            probs, reads = _reader_problems(sel)
+            if reads or probs:
+                n += 1
+                names = [t.lower() for t in sf.table_names(sel.frm) if t.lower() in SHARDED]
+                ctx.check(not probs, 'R12', f'{cons}::reads {names[0]}', f'{"; ".join(probs[:3])}: {msg}', file, line)
+
+    for name, r in sorted(prog.routines.items()):
+        for st in sf.all_statements(r.ast.body):
+            if st.kind in ('select', 'insert', 'update', 'delete'):
+                judge(f'sql::{name}::{st.kind}', st, r.file, r.line_of(st))
+    for rel in pf.walk_py(dirs):
+        m = pf.load(rel)
+        if not any(t in m.src for t in SHARDED):
+            continue
+        for e in sf.embedded_in(m):
+            if e.sql_text is None or not any(t in e.sql_text for t in SHARDED):
+                continue
+            sts = e.stmts()
+            if e.parse_error:
+                raise AnalysisError(f'{rel}:{e.lineno}: SQL naming a counter table does not parse ({e.parse_error})')
+            for i, st in enumerate(sts):
+                judge(f'{rel}::{e.qual}::{st.kind}#{i}' if len(sts) > 1 else f'{rel}::{e.qual}::{st.kind}', st, m.path, e.lineno)
+    # positive control: a per-shard reader must be seen by the same machinery
+    from engines.sqlast import parse_statements
+    pc = parse_statements(f'SELECT user, n_ready_jobs FROM {USER_TBL} WHERE inst_coll = %s AND token = 0')[0]
+    if not _reader_problems(pc)[0]:
+        raise AnalysisError('positive control failed: per-shard reader not recognised')
+    ctx.ok('R12', 'positive-control::SELECT n_ready_jobs .. WHERE token = 0', nontrivial=False)
+
+
+# ------------------------------------------------------------------------------------------------
+# R9 (procedures): the statements that together move a cancellation / a commit run under one and the same condition
+# ------------------------------------------------------------------------------------------------
+def _free_literal(c: N, params: set) -> Optional[bool]:
+    """True: the literal only speaks about procedure parameters / constants (a caller can make it false); None: cannot tell."""
+    if cf.has_subquery(c):
+        return None
+    atoms = cf.literal_atoms(c)
+    if atoms and all(a.kind == 'col' and len(a.parts) == 1 and a.parts[0].lower() in params for a in atoms):
+        return True
+    return None
+
+
+def r9_procedures(ctx: Ctx, prog: sf.SqlProgram) -> None:
+    def cond_of(pl, st):
+        _, guard, exits = pl[id(st)]
+        return cf.condition_key(guard, exits), guard, exits
+
+    def lits(key) -> set:
+        d = dict(key)
+        return set(d['guard']) | {('exit', e) for e in d['exits']}
+
+    for rname in ('cancel_job_group', 'cancel_batch'):
+        r = prog.routine(rname)
+        a = r.ast
+        params = {p[1].lower() for p in getattr(a, 'params', [])}
+        pl = cf.path_literals(a.body)
+        role: Dict[str, List[N]] = {'mark': [], 'move': [], 'clear': []}
+        for st in sf.all_statements(a.body):
+            for t, verb in sf.written_tables(st):
+                t = t.lower()
+                if t == MARK_TBL:
+                    role['mark'].append(st)
+                elif t == USER_TBL:
+                    role['move'].append(st)
+                elif t == CANC_TBL:
+                    role['clear'].append(st)
+        if not (len(role['mark']) == 1 and role['move'] and role['clear']):
+            continue  # R4 reports the missing statement
+        ctx.need(all(id(st) in pl for v in role.values() for st in v), f'{rname}: a counter statement sits inside a loop')
+        mk, _, _ = cond_of(pl, role['mark'][0])
+        for what, label in (('move', f'moves the cancellable counts into n_cancelled_* of {USER_TBL}'), ('clear', f'removes them from {CANC_TBL}')):
+            for st in role[what]:
+                k, guard, _ = cond_of(pl, st)
+                cons = f'sql::{rname}::{st.kind} {sf.written_tables(st)[0][0].lower()}::same condition as the mark'
+                if k == mk:
+                    ctx.ok('R9', cons)
+                    continue
+                only_here = lits(k) - lits(mk)
+                only_mark = lits(mk) - lits(k)
+                extra_nodes = [c for c, pol in guard if (text(c), pol) in only_here]
+                decidable = all(_free_literal(c, params) for c in extra_nodes) and not any(x[0] == 'exit' for x in only_here | only_mark) and \
+                    all(_free_literal(c, params) for c, pol in pl[id(role['mark'][0])][1] if (text(c), pol) in only_mark)
+                ctx.need(decidable, f'{rname}: the statement that {label} and the INSERT of the cancellation mark run under different conditions '
+                         f'({sorted(map(str, only_here))} vs {sorted(map(str, only_mark))}) that depend on more than the procedure\'s parameters')
+                ctx.bad('R9', cons, f'{rname} inserts the cancellation mark under {sorted(map(str, only_mark)) or "the common condition"} but the statement that {label} additionally requires '
+                        f'{sorted(map(str, only_here)) or "nothing"}: for inputs where the two differ the group is marked cancelled while its jobs stay counted as before (or the reverse)',
+                        r.file, r.line_of(st))
+
+    # commit_batch_update: the roll-up of staged ready counts happens exactly when the update becomes committed
+    r = prog.routine('commit_batch_update')
+    a = r.ast
+    params = {p[1].lower() for p in getattr(a, 'params', [])}
+    pl = cf.path_literals(a.body)
+    roll = [st for st in sf.all_statements(a.body) if st.kind == 'insert' and st.table.lower() == USER_TBL]
+    setc = [st for st in sf.all_statements(a.body) if st.kind == 'update' and sf.table_names(st.frm)[:1] == ['batch_updates']
+            and any(text(c).lower().split('.')[-1] == 'committed' for c, v in st.sets)]
+    if len(roll) == 1 and len(setc) == 1:
+        ctx.need(id(roll[0]) in pl and id(setc[0]) in pl, 'commit_batch_update: roll-up inside a loop')
+        kr, gr, _ = cond_of(pl, roll[0])
+        kc, gc_, _ = cond_of(pl, setc[0])
+        cons = 'sql::commit_batch_update::roll-up runs whenever the update becomes committed'
+        extra = [(c, pol) for c, pol in gr if (text(c), pol) in (lits(kr) - lits(kc))]
+        missing = lits(kc) - lits(kr)
+        ctx.need(not any(x[0] == 'exit' for x in (lits(kr) ^ lits(kc))), 'commit_batch_update: early exits between the commit flag and the roll-up are not analysed')
+        bad_lit = None
+        first_only = _ready_only_first_update()
+        for c, pol in extra:
+            # allowed: a "there is at least one job" test -- with zero jobs there is nothing staged
+            ok_all = True
+            for k in (1, 2, 5):
+                def known(nd: N, k=k) -> Any:
+                    if nd.kind == 'col' and len(nd.parts) == 1 and nd.parts[0].lower() in ('expected_n_jobs', 'staging_n_jobs'):
+                        return k
+                    if first_only and nd.kind == 'col' and len(nd.parts) == 1 and nd.parts[0].lower() == 'in_update_id':
+                        return 1  # later updates stage no Ready jobs (the front end inserts them Pending), so only update 1 matters
+                    return cf.UNKNOWN
+                mv = cf.may(c, known)
+                if mv != ({True} if pol else {False}):
+                    ok_all = False
+            if not ok_all:
+                bad_lit = (c, pol)
+                break
+        if bad_lit is None and not missing:
+            ctx.ok('R9', cons)
+        else:
+            if bad_lit is not None:
+                ctx.need(_free_literal(bad_lit[0], params | {'expected_n_jobs', 'staging_n_jobs'}), f'commit_batch_update: the roll-up is additionally guarded by `{text(bad_lit[0])}` which depends on more than '
+                         'the procedure\'s parameters and the job counts')
+                ctx.bad('R9', cons, f'the update is marked committed but the staged n_ready_jobs / ready_cores_mcpu are only added to {USER_TBL} when additionally '
+                        f'`{"" if bad_lit[1] else "NOT "}{text(bad_lit[0])}`: for the other inputs the Ready jobs of the update are never counted (they are inserted Ready, so no trigger will ever add them)',
+                        r.file, r.line_of(roll[0]))
+            else:
+                ctx.bad('R9', cons, f'the staged counts are added under a weaker condition than the commit flag is set (missing {sorted(map(str, missing))}): a repeated or failed commit adds them again',
+                        r.file, r.line_of(roll[0]))
+
+
 def run(ctx: Ctx) -> None:
     ctx.explanation = ('Per-statement obligations of the scheduler-counter invariant decided on the effective SQL routines (after replaying the migration list) '
                        'and on the SQL embedded in the front end / driver; truth tables over the complete job-state domain are exhaustive.')
@@ -734,14 +1463,38 @@ def run(ctx: Ctx) -> None:
     ctx.rule('R6', 'closed world of writers of the counter tables; cleanup deletes keyed by the selected triple and filtered (committed / cancelled)', 18)
     ctx.rule('R7', 'commit_batch_update adds exactly the root-group staging sums of (batch, update), once, in the not-yet-committed branch', 7)
     ctx.rule('R8', 'no UPDATE changes the job columns the trigger treats as immutable (always_run, cores_mcpu, inst_coll, job_group_id, update_id, keys)', 8)
+    ctx.rule('R9', 'counter maintenance is unconditional in what it applies: executing the whole jobs_after_update body (guards, ELSE arms, early exits) applies spec(NEW) - spec(OLD) '
+             'to every counter column on every domain point; in the cancel / commit procedures the statements that belong together run under one condition', 13)
+    ctx.rule('R10', 'no cancellation mark for a group of an uncommitted update: job_groups_cancelled is written only by the cancel procedures for their own argument, and every '
+             'Python CALL cancel_job_group is for the root group or dominated by a "creating update committed OR root" row check keyed by the same (batch, group)', 0)
+    ctx.rule('R11', 'every call path to commit_batch_update refuses a batch whose root group is cancelled (or commits an update opened in the same request by a creator that refuses it)', 0)
+    ctx.rule('R12', 'every reader of the sharded counter tables reads SUM over all token shards (no per-shard column, filter, HAVING or GROUP BY token)', 0)
     ctx.assume('MySQL: AFTER UPDATE trigger fires once per updated row; ON DUPLICATE KEY UPDATE runs instead of the insert for an existing key')
     prog = sf.load_program()
     ctx.unit('migration_scripts_replayed', len(prog.scripts))
     ctx.unit('effective_routines', len(prog.routines))
-    r1_trigger(ctx, prog)
-    r2_audit(ctx)
-    r4_cancel(ctx, prog)
-    r7_commit(ctx, prog)
-    r5_create_jobs(ctx)
-    r6_closed_world(ctx, prog)
-    r8_immutable(ctx, prog)
+    dirs = ['batch/batch'] if ctx.tier == 'quick' else ['batch', 'gear', 'auth', 'ci', 'web_common', 'monitoring', 'hail/python/hailtop']
+    steps = [
+        lambda: r1_trigger(ctx, prog),
+        lambda: r2_audit(ctx),
+        lambda: r4_cancel(ctx, prog),
+        lambda: r7_commit(ctx, prog),
+        lambda: r9_procedures(ctx, prog),
+        lambda: r5_create_jobs(ctx),
+        lambda: r6_closed_world(ctx, prog),
+        lambda: r8_immutable(ctx, prog),
+        lambda: r10_cancel_sites(ctx, prog, dirs),
+        lambda: r11_commit_sites(ctx, dirs),
+        lambda: r12_readers(ctx, prog, dirs),
+    ]
+    # a shape one rule cannot analyse must not hide a violation another rule can establish: run them all, then decline
+    deferred: List[AnalysisError] = []
+    for step in steps:
+        try:
+            step()
+        except AnchorRemoved:
+            raise
+        except AnalysisError as e:
+            deferred.append(e)
+    if deferred:
+        raise deferred[0]
